@@ -416,7 +416,38 @@ def drive(rc, run, cfg, bodies, counter, st, steps, ctxs):
             return [InStep()]
         return [Nothing()]
 
-    def do_step(g, how, ckind, creating=False):
+    def resume(g, how, creating, hop):
+        """The resumption itself; with ``hop`` it runs inside a *copy* of the driver's contextvars context
+        (a driver that resumes from another Context: executor thread, another task, copy_context().run)."""
+        def core():
+            if creating:
+                g.it = run.make(g)()
+                return next(g.it)
+            if how == "next":
+                g.sent = None
+                return next(g.it)
+            if how == "send":
+                counter["nid"] += 1
+                # any object is a legitimate value to send, an exception instance included
+                g.sent = ValueError("sent as data %d" % counter["nid"]) if counter["nid"] % 4 == 0 \
+                    else ("sent", counter["nid"])
+                return g.it.send(g.sent)
+            if how == "throw":
+                g.thrown = AppError("thrown into generator %d" % g.gid)
+                return g.it.throw(g.thrown)
+            out = g.it.close()
+            g.done = True
+            g.finished_by = "close"
+            if out is not None:
+                raise run.viol("close_result", "close() returned %r" % (out,))
+            return out
+        if hop:
+            import contextvars
+            rc.probe("resumed_from_copied_context")
+            return contextvars.copy_context().run(core)
+        return core()
+
+    def do_step(g, how, ckind, creating=False, hop=False):
         cms = contexts(ckind)
         ctxs.add((g.gid, ckind if (root is not None or ckind == 3) else 0))
         for cm in cms:
@@ -425,25 +456,7 @@ def drive(rc, run, cfg, bodies, counter, st, steps, ctxs):
         try:
             run.check("driver before step")
             try:
-                if creating:
-                    g.it = run.make(g)()
-                    out = next(g.it)
-                elif how == "next":
-                    out = next(g.it)
-                    g.sent = None
-                elif how == "send":
-                    counter["nid"] += 1
-                    g.sent = ("sent", counter["nid"])
-                    out = g.it.send(g.sent)
-                elif how == "throw":
-                    g.thrown = AppError("thrown into generator %d" % g.gid)
-                    out = g.it.throw(g.thrown)
-                else:
-                    out = g.it.close()
-                    g.done = True
-                    g.finished_by = "close"
-                    if out is not None:
-                        raise run.viol("close_result", "close() returned %r" % (out,))
+                out = resume(g, how, creating, hop)
             finally:
                 if run.active:
                     raise run.viol("harness_active", "model bookkeeping: a body is marked running in the driver")
@@ -462,6 +475,13 @@ def drive(rc, run, cfg, bodies, counter, st, steps, ctxs):
             g.done = True
             g.finished_by = "raise"
             escaped = ex
+        except Violation:
+            raise
+        except Exception as ex:  # noqa
+            if ex is getattr(g, "sent", None):
+                raise run.viol("sent_value", "the value sent into generator %d (%r) was raised in it instead" % (g.gid, ex))
+            raise run.viol(("generator_raised", {"exc": type(ex).__name__}),
+                           "resuming generator %d (%s) raised %s: %s" % (g.gid, how, type(ex).__name__, ex))
         finally:
             for cm in reversed(cms):
                 cm.__exit__(None, None, None)
@@ -499,8 +519,9 @@ def drive(rc, run, cfg, bodies, counter, st, steps, ctxs):
         how = ["next", "send", "throw", "close"][st.weighted([5, 3, 2, 1], "how")]
         ck = st.choose(4, "step-ctx")
         n_ev = len(g.events)
-        esc = do_step(g, how, ck)
-        steps.append((g.gid, how, ck))
+        hop = st.choose(3, "hop") == 2
+        esc = do_step(g, how, ck, hop=hop)
+        steps.append((g.gid, how, ck, int(hop)))
         if how == "throw" and esc is not None and esc is not g.thrown and "boom from generator" not in str(esc):
             raise run.viol("thrown_value", "throw(): %r came back out instead of %r" % (esc, g.thrown))
         if len(g.events) > n_ev:
